@@ -48,7 +48,7 @@ func parseGoErr(s string) goErr {
 		return goErr{kind: "plain", text: string(unhx(s[6:]))}
 	case strings.HasPrefix(s, "plaineof:"), strings.HasPrefix(s, "plaintmo:"):
 		return goErr{kind: s[:8], text: string(unhx(s[9:]))}
-	case strings.HasPrefix(s, "coded:"), strings.HasPrefix(s, "codedctx:"), strings.HasPrefix(s, "codedwrap:"), strings.HasPrefix(s, "codedeof:"), strings.HasPrefix(s, "codedjoin:"), strings.HasPrefix(s, "codedas:"):
+	case strings.HasPrefix(s, "coded:"), strings.HasPrefix(s, "codedctx:"), strings.HasPrefix(s, "codedwrap:"), strings.HasPrefix(s, "codedeof:"), strings.HasPrefix(s, "codedjoin:"), strings.HasPrefix(s, "codedas:"), strings.HasPrefix(s, "codedunenc:"), strings.HasPrefix(s, "codedunrend:"):
 		kind := s[:strings.IndexByte(s, ':')]
 		p := strings.SplitN(s[len(kind)+1:], "@", 2)
 		return goErr{kind: kind, w: parseWireErr(p[0]), meta: parseHdr(p[1])}
@@ -84,7 +84,11 @@ func (g goErr) build() error {
 	}
 	e := connect.NewError(connect.Code(g.w.code), cause)
 	for _, d := range g.w.details {
-		e.AddDetail(detailToAny(d))
+		e.AddDetail(detailToAny(d)) // codedunrend: the last of them is an Any of a type this binary does not know
+	}
+	if g.kind == "codedunenc" {
+		// one more detail, of the application's own type, which cannot be made into an Any
+		e.AddDetail(&countingDetail{&wrapperspb.StringValue{Value: "bad \xff bytes"}})
 	}
 	for k, vs := range g.meta {
 		e.Meta()[k] = append([]string(nil), vs...)
@@ -264,10 +268,15 @@ func serveOp(c *Ctx, op string) {
 		rec = serveReal(proto, kind, a["comp"] == "1", handler)
 		enc, _ := encHeaderFor(proto, kind)
 		r, note := canonicalResponse(proto, kind, rec.status, rec.header, rec.trailer, rec.body, enc)
-		if note != "" {
-			c.Fail("wire-"+note, op, showResp(r), "the response is not well-formed for the protocol: "+note)
+		// (an error whose details cannot be encoded at all leaves a response that is not
+		// well-formed - no body, no end-of-stream message: what matters then is that the peer
+		// sees a failure, see clientRoundtrip)
+		if result.kind != "codedunenc" {
+			if note != "" {
+				c.Fail("wire-"+note, op, showResp(r), "the response is not well-formed for the protocol: "+note)
+			}
+			wireOracle(c, op, proto, kind, r, rec, result)
 		}
-		wireOracle(c, op, proto, kind, r, rec, result)
 		return showResp(r)
 	})
 	if strings.HasPrefix(ans, "PANIC") {
@@ -578,8 +587,22 @@ func clientRoundtrip(c *Ctx, op, proto, kind string, rec recorded, h, t hdr, sen
 			c.Fail("rt-error-uncoded", op, v.err.Error(), "the client error cannot be inspected as a Connect error")
 			break
 		}
+		if result.kind == "codedunenc" {
+			// no promise about what the peer is told, except that it is a failure, after the
+			// messages that were sent
+			if len(v.msgs) != len(sends) && (kind == "server" || kind == "bidi") {
+				c.Fail("rt-error-broken-detail-messages", op, fmt.Sprint(len(v.msgs)), "the messages sent before the error did not arrive")
+			}
+			break
+		}
 		var want *wireErr
 		switch result.kind {
+		case "codedunrend":
+			want = result.w
+			if proto == "connect" {
+				// fix F38: code, message and metadata arrive, the details do not
+				want = &wireErr{code: result.w.code, msg: result.w.msg}
+			}
 		case "coded", "codedctx", "codedwrap", "codedeof", "codedjoin", "codedas":
 			want = result.w
 		case "plain", "plaineof", "plaintmo":
@@ -611,7 +634,7 @@ func clientRoundtrip(c *Ctx, op, proto, kind string, rec recorded, h, t hdr, sen
 	// --- model of the client on the same response ---
 	enc, _ := encHeaderFor(proto, kind)
 	r, note := canonicalResponse(proto, kind, rec.status, rec.header, rec.trailer, rec.body, enc)
-	if note != "" {
+	if note != "" && note != "empty-error-body" {
 		return
 	}
 	cdecEmit(c, proto, kind, r, v)
@@ -1658,6 +1681,73 @@ func unserializableErrorProbe(c *Ctx) {
 	}
 }
 
+// brokenDetailProbe (C02, oracle only): "an error is never delivered as success" holds whatever
+// the error carries - also a detail that cannot be encoded (anypb.New fails on a string field
+// that is not UTF-8) or cannot be rendered (an Any of a type this binary does not know). What
+// code the client sees then is the library's business; that it sees a failure, and every message
+// sent before it, is not.
+func brokenDetailProbe(c *Ctx) {
+	for _, proto := range []string{"connect", "grpc", "grpcweb"} {
+		for _, kind := range []string{"unary", "server"} {
+			for _, before := range []int{0, 1, 2} {
+				if kind == "unary" && before > 0 {
+					continue
+				}
+				for _, broken := range []string{"unencodable", "unrenderable"} {
+					desc := fmt.Sprintf("%s %s handler sends %d message(s), then fails with aborted and an %s detail", proto, kind, before, broken)
+					c.Count("probe-broken-detail")
+					got := safely(func() string {
+						mk := func() error {
+							e := connect.NewError(connect.CodeAborted, errors.New("upstream says no"))
+							if broken == "unencodable" {
+								e.AddDetail(&countingDetail{&wrapperspb.StringValue{Value: "bad \xff bytes"}})
+							} else {
+								e.AddDetail(&anypb.Any{TypeUrl: "type.googleapis.com/acme.v9.NotLinkedIn", Value: []byte{8, 1}})
+							}
+							return e
+						}
+						var h *connect.Handler
+						if kind == "unary" {
+							h = connect.NewUnaryHandler("/s/m", func(ctx context.Context, r *connect.Request[[]byte]) (*connect.Response[[]byte], error) {
+								return nil, mk()
+							}, connect.WithCodec(rawCodec{"raw"}))
+						} else {
+							h = connect.NewServerStreamHandler("/s/m", func(ctx context.Context, r *connect.Request[[]byte], s *connect.ServerStream[[]byte]) error {
+								for i := 0; i < before; i++ {
+									if err := s.Send(&[]byte{byte(i + 1)}); err != nil {
+										return err
+									}
+								}
+								return mk()
+							}, connect.WithCodec(rawCodec{"raw"}))
+						}
+						rec := serveReal(proto, kind, false, h)
+						hc := &staticClient{status: rec.status, header: rec.header, trailer: rec.trailer, body: rec.body}
+						cl := connect.NewClient[[]byte, []byte](hc, "http://h/s/m", append(protoOpts(proto), connect.WithCodec(rawCodec{"raw"}))...)
+						if kind == "unary" {
+							_, err := cl.CallUnary(context.Background(), connect.NewRequest(&[]byte{1}))
+							return fmt.Sprintf("msgs=0 failed=%v", err != nil)
+						}
+						st, err := cl.CallServerStream(context.Background(), connect.NewRequest(&[]byte{1}))
+						if err != nil {
+							return "msgs=0 failed=true"
+						}
+						defer st.Close()
+						n := 0
+						for st.Receive() {
+							n++
+						}
+						return fmt.Sprintf("msgs=%d failed=%v", n, st.Err() != nil)
+					})
+					if got != fmt.Sprintf("msgs=%d failed=true", before) {
+						c.Fail("rt-error-as-success-broken-detail", desc, got, "an error is never delivered as success, and the messages sent before it arrive")
+					}
+				}
+			}
+		}
+	}
+}
+
 // codeTextProbes (C06/C18, oracle only): in the JSON forms of an error the code is one of the
 // defined lower-case names or code_<number>. A peer's text that differs from a valid one only
 // by letter case (gRPC enum spelling, a Kelvin sign) is not a code: the client treats it exactly
@@ -2527,6 +2617,7 @@ func extraProbes(c *Ctx) {
 	userCodecProbe(c)
 	contentLengthProbes(c)
 	unserializableErrorProbe(c)
+	brokenDetailProbe(c)
 	codeTextProbes(c)
 	terminatorLostProbes(c)
 	truncatedErrorBodyProbes(c)
@@ -2686,7 +2777,7 @@ func showGoErr(g goErr) string {
 	switch g.kind {
 	case "plain", "plaineof", "plaintmo":
 		return g.kind + ":" + hx([]byte(g.text))
-	case "coded", "codedctx", "codedwrap", "codedeof", "codedjoin", "codedas":
+	case "coded", "codedctx", "codedwrap", "codedeof", "codedjoin", "codedas", "codedunenc", "codedunrend":
 		return g.kind + ":" + showWireErr(g.w) + "@" + showHdr(g.meta)
 	}
 	return g.kind
@@ -2753,6 +2844,14 @@ func streamProto(c *Ctx) {
 				results = append(results, goErr{kind: k, w: &wireErr{code: 9, msg: "precondition", details: genDetails(r)}, meta: genHeader(r, mkeys)})
 			}
 			results = append(results, goErr{kind: "plaineof", text: "read upstream: EOF"}, goErr{kind: "plaintmo", text: "read tcp 10.0.0.1:443: i/o timeout"})
+			// errors whose details cannot be put on the wire: one that cannot be rendered as JSON
+			// (an Any of a type this binary does not know, last in the list), one that cannot be
+			// made into an Any at all
+			for i := 0; i < 3; i++ {
+				unknown := anyToDetail(&anypb.Any{TypeUrl: "type.googleapis.com/acme.v9.NotLinkedIn", Value: []byte{8, byte(1 + i)}})
+				results = append(results, goErr{kind: "codedunrend", w: &wireErr{code: 1 + r.Intn(16), msg: errorTexts[r.Intn(len(errorTexts))], details: append(genDetails(r), unknown)}, meta: genHeader(r, mkeys)})
+				results = append(results, goErr{kind: "codedunenc", w: &wireErr{code: 1 + r.Intn(16), msg: errorTexts[r.Intn(len(errorTexts))], details: genDetails(r)}, meta: genHeader(r, mkeys)})
+			}
 			for i := 0; i < reps; i++ {
 				results = append(results, goErr{kind: "none"})
 			}
